@@ -1521,26 +1521,41 @@ def ref_constructors(units, R):
     u = units['cJSON.c']
     n = 0
     fn = u.fn('create_reference')
-    stores = {}
-    for a in assignments(fn):
-        l = strip_casts(a['l'])
-        if l.get('k') == 'mem':
-            stores.setdefault(l['f'], []).append(a)
-        r0 = strip_casts(a['r'])
-        while r0.get('k') == 'bin' and r0['op'] == '=':
-            l2 = strip_casts(r0['l'])
-            if l2.get('k') == 'mem':
-                stores.setdefault(l2['f'], []).append(r0)
-            r0 = strip_casts(r0['r'])
-    n += 1
-    ok_key = any(is_null_const(a['r']) for a in stores.get('string', []))
-    R.ob('REFC', fn, None, 'reference node has no key of its own', ok_key, 'string = NULL' if ok_key else 'key pointer shared with the referent', key='ref-key')
     from .lst import _mentions_macro
-    ok_bit = any(_mentions_macro(a, 'cJSON_IsReference') for a in stores.get('type', []))
-    R.ob('REFC', fn, None, 'reference node carries cJSON_IsReference', ok_bit, '', key='ref-bit')
+    from .nodestate import NodeStates
+    rets = {strip_casts(r['e'])['d'] for r in fn.nodes() if r.get('k') == 'return' and 'e' in r and strip_casts(r['e']).get('k') == 'ref'
+            and strip_casts(r['e']).get('dk') != 'param'}
+    if len(rets) != 1:
+        raise AnalysisBroken('REFC: cannot identify the reference node in create_reference')
+    refv = rets.pop()
+    ns = NodeStates(u)
+    ncfg, nbefore, _na = ns.run(fn, refv, {}, 0)
+    final = {f: set() for f in ns.fields}
+    for rr in ncfg.returns():
+        if rr.expr is not None and strip_casts(rr.expr).get('k') == 'ref' and strip_casts(rr.expr)['d'] == refv and rr.id in nbefore:
+            for f in ns.fields:
+                final[f] |= {d for d in nbefore[rr.id][f] if d.kind != 'nocopy'}
+    if not final.get('type'):
+        raise AnalysisBroken('REFC: no return of the reference node found')
+    n += 1
+    # the definitions of each field that are in effect where the reference node is returned
+    ok_key = all(d.kind == 'zero' for d in final['string'])
+    R.ob('REFC', fn, None, 'reference node has no key of its own', ok_key,
+         'string = NULL' if ok_key else 'key: %s' % '; '.join(sorted(d.describe() for d in final['string'] if d.kind != 'zero')), key='ref-key')
+
+    def flagged(d):
+        if d.kind == 'store':
+            return _mentions_macro(d.stmt, 'cJSON_IsReference')
+        if d.kind == 'upd':
+            return any(o.op == '|=' and _mentions_macro(o.stmt, 'cJSON_IsReference') for o in d.ops.values())
+        return False
+    ok_bit = all(flagged(d) for d in final['type'])
+    R.ob('REFC', fn, None, 'reference node carries cJSON_IsReference', ok_bit,
+         '' if ok_bit else 'type: %s' % '; '.join(sorted(d.describe() for d in final['type'] if not flagged(d))), key='ref-bit')
     for f in ('next', 'prev'):
-        okl = bool(stores.get(f))
-        R.ob('REFC', fn, None, 'reference node has no sibling link %s' % f, okl, '' if okl else '%s copied from the referent' % f, key='ref-' + f)
+        okl = all(d.kind == 'zero' for d in final[f])
+        R.ob('REFC', fn, None, 'reference node has no sibling link %s' % f, okl,
+             '' if okl else '%s: %s' % (f, '; '.join(sorted(d.describe() for d in final[f] if d.kind != 'zero'))), key='ref-' + f)
     # cast_away_const results
     for fn2 in u.function_list:
         par = fn2.parents()
